@@ -746,7 +746,7 @@ impl Archive {
         {
             let hi_block_offset = self.absolute_pos(hi_block_pos);
             let hi_block_end =
-                hi_block_offset.saturating_add(self.header.block_table_size as u64 * 8);
+                hi_block_offset.saturating_add(self.header.block_table_size as u64 * 2);
 
             let file_size = self.reader.get_ref().metadata()?.len();
             if hi_block_end > file_size {
